@@ -23,6 +23,7 @@ clause → theorem
 * the model transcribes the current source .... `C01.source_shapes` (in-place steps, length patches, builder, stamping,
                                                echo rule, server call sites; re-extracted on every run)
 * stream read-back returns the frame .......... `C01.stream_round_trip`, `C01.stream_pipelined_round_trip`
+* streamed slice writers, any header argument  `C01.slice_writer_frame`, `C01.slice_writer_eq_builder`, `C01.slice_writers_set_beve_fact`
 * `serialized_len` = emitted length ........... `C01.serialized_len_is_frame_length`
 
 All theorems hold for every header field value in its full range (reserved bits, unknown format
@@ -168,6 +169,30 @@ theorem response_paths_agree (reqId reqQf : Nat) (reqQuery : Bytes) (bf : Nat) (
     stampResponseQuery (createResponseUnstamped reqId reqQf bf body) reqQuery =
       createResponse reqId reqQf reqQuery bf body :=
   stamp_unstamped_response reqId reqQf reqQuery bf body
+
+/-- The streamed slice writers, for **every** header passed in (stale lengths, any pre-set body format, error code,
+notify, reserved, id): the frame is `to_vec` of the message with the three lengths patched and the body format BEVE —
+what the buffered route (`MessageBuilder::body_typed_slice` + `write_message`) emits for the same id / formats / query. -/
+theorem slice_writer_frame (h : Header) (q payload : Bytes) :
+    writeMessageSlice h q payload =
+      (Message.mk (({ h with bodyFormat := BEVE_FORMAT } : Header).patchLengths q.length payload.length) q payload).toVec ∧
+    (({ h with bodyFormat := BEVE_FORMAT } : Header).patchLengths q.length payload.length).bodyFormat = BEVE_FORMAT :=
+  ⟨streaming_eq_toVec _ q payload, rfl⟩
+
+/-- … and that is the builder's frame when the header is the builder's header. -/
+theorem slice_writer_eq_builder (b : Builder) (hbf : b.bodyFormat = BEVE_FORMAT) (stale : Header)
+    (hs : stale.spec = REPE_SPEC) (hv : stale.version = REPE_VERSION) (hn : stale.notify = (if b.notify then 1 else 0))
+    (hr : stale.reserved = 0) (hi : stale.id = b.id) (hq : stale.queryFormat = b.queryFormat) (he : stale.ec = b.ec) :
+    writeMessageSlice stale b.query b.body = b.build.toVec := by
+  rw [(slice_writer_frame stale b.query b.body).1]
+  cases stale
+  simp_all [Builder.build, Header.patchLengths, Message.toVec]
+
+/-- The source sets the format unconditionally (re-read on every run; a guarded assignment is extracted as `false`). -/
+theorem slice_writers_set_beve_fact : Gen.sliceWritersSetBeve = true := by decide
+
+example : writeMessageSlice ⟨7, 0x1507, 1, 0, 0, 5, 99, 99, 1, 0xFFFF, 0⟩ [47] [3, 4] =
+    (Message.mk ⟨51, 0x1507, 1, 0, 0, 5, 1, 2, 1, 1, 0⟩ [47] [3, 4]).toVec := by decide
 
 theorem serialized_len_is_frame_length (m : Message) : m.serializedLen = m.toVec.length :=
   serializedLen_eq m
